@@ -151,20 +151,24 @@ def sh(cmd, cwd=None, timeout=3600, env=None):
         return 124, "timeout"
 
 
-def run(stream, streams, seed, limit, files_re):
+def run(stream, streams, seed, limit, files_re, reverse=False):
     os.makedirs(ROOT, exist_ok=True)
-    wt = "%s/wt%d" % (ROOT, stream)
+    wt = "%s/wt%s%d" % (ROOT, "r" if reverse else "", stream)
     if not os.path.exists(wt):
         sh("git -C %s worktree add --detach %s HEAD" % (REPO, wt))
     am = anchors()
     done = set()
-    resf = "%s/results-%d.tsv" % (ROOT, stream)
-    if os.path.exists(resf):
-        done = {l.split("\t")[0] for l in open(resf)}
+    resf = "%s/results-%s%d.tsv" % (ROOT, "r" if reverse else "", stream)
+    for f in os.listdir(ROOT):
+        if f.startswith("results-"):
+            done |= {l.split("\t")[0] for l in open(os.path.join(ROOT, f))}
     ms = sample(seed, files_re)
     if limit:
         ms = ms[:limit]
-    for k, (mid, (rel, ln, op, old, new)) in enumerate(ms):
+    ms = list(enumerate(ms))
+    if reverse:
+        ms.reverse()
+    for k, (mid, (rel, ln, op, old, new)) in ms:
         if k % streams != stream or mid in done:
             continue
         sh("git checkout -q -- .", cwd=wt)
@@ -225,7 +229,7 @@ def main():
         c = collections.Counter(m[2] for _, m in ms)
         print(dict(c))
     elif a[0] == "run":
-        run(int(a[1]), int(a[2]), seed, limit, files_re)
+        run(int(a[1]), int(a[2]), seed, limit, files_re, "--reverse" in a)
     elif a[0] == "collect":
         os.makedirs(os.path.join(VERIF, "mutation"), exist_ok=True)
         rows = []
